@@ -7,7 +7,8 @@ import ast
 
 from ..astutil import (call_name, calls_in, walk_no_nested, params_of, kw,
                        dotted, opt_read)
-from ..cfg import cfg_of, expr_owner_node, facts_at
+from ..cfg import cfg_of, expr_owner_node, facts_at, loop_body_paths
+from ..pathutil import describe_path
 from ..fold import (Folder, FuncRef, ClassRef, Inst, Namespace, GuardedList,
                     Guarded, ModRef, Sym, OptNS)
 from ..loader import Program, AnalysisError, unparse
@@ -954,10 +955,16 @@ def rule_r7(chk, prog, reg):
             for dec, ns, fo in base.paths(go):
                 rel = any(v for k, v in dec.items()
                           if k[0] == 'relevant' and k[1] == g)
+                # no evidence = every top-level node was shown to
+                # is_relevant and each was declined
+                asked = {k[2] for k, v in dec.items()
+                         if k[0] == 'relevant' and k[1] == g and not v}
+                all_declined = asked >= {('node', i) for i in range(N)}
                 writes = [(k, v) for k, v in ns.writes]
                 members = {dest_of_opt(o) for o in d.values()} | {
                     dest_of_group(g)}
-                may_disable = user is None and has_rel and not rel
+                may_disable = user is None and has_rel and not rel and \
+                    all_declined
                 if may_disable:
                     # documented: the group is switched off entirely
                     ok = all(ns.attrs.get(k) is False for k in members)
@@ -970,7 +977,11 @@ def rule_r7(chk, prog, reg):
                     why = ('the user set the group explicitly'
                            if user is not None else
                            'the theory has no is_relevant()' if not has_rel
-                           else 'a node of the input is relevant')
+                           else 'a node of the input is relevant' if rel
+                           else 'not every top-level node has been shown '
+                           'to is_relevant() and declined (the decision '
+                           'rests on something else than the declarations '
+                           'of the input)')
                     msg = (f'{why}, yet detection writes {writes[:3]}')
                 foreign = [k for k, v in writes if k not in members]
                 if foreign:
@@ -981,7 +992,7 @@ def rule_r7(chk, prog, reg):
                     msg = f'detection enables something: {writes[:3]}'
                 chk.check('C14.R7', 'mutators.auto_detect_theories',
                           f'group {g} user={user} evidence={rel} '
-                          f'{sorted((k[1:], v) for k, v in dec.items())}',
+                          f'{sorted(((k[1:], v) for k, v in dec.items()), key=repr)}'[:300],
                           ok, msg, loc=m.loc(f), nontrivial=True)
     # all groups unset at once: the verdict on one group must not depend on
     # what is found for another (a declaration may vouch for several)
@@ -1259,6 +1270,45 @@ def rule_r9(chk, prog, reg):
                           'last pass contains) are enabled but never '
                           'scheduled', loc=m.loc(r), nontrivial=True)
         chk.floor('C14.R9', f'returns of {where}', nret, 1)
+        if modname == 'strategy_hierarchical':
+            # every pass that has mutators is swept: an iteration of the
+            # loop over the passes that does not enter the sweep loop is
+            # one whose pass is empty
+            ol = outer[0]
+            inner = [l for l in ast.walk(ol) if l is not ol and isinstance(
+                l, (ast.While, ast.For))]
+            inner_nodes = {fcfg.node_of[id(l)] for l in inner
+                           if id(l) in fcfg.node_of}
+            nskip = 0
+            for p in loop_body_paths(fcfg, ol):
+                if any(n_ in inner_nodes for n_ in p.nodes):
+                    continue
+                if p.end is not fcfg.node_of[id(ol)]:
+                    continue
+                nskip += 1
+                cur = None
+                for st in ol.body:
+                    if isinstance(st, ast.Assign) and isinstance(
+                            st.targets[0], ast.Tuple) and isinstance(
+                                st.targets[0].elts[0], ast.Name):
+                        cur = st.targets[0].elts[0].id
+                        break
+                empty = cur is not None and any(
+                    (t, pol) in ((cur, False), (f'not {cur}', True),
+                                 (f'len({cur}) == 0', True),
+                                 (f'len({cur}) > 0', False))
+                    for (t, pol) in p.facts)
+                other = [t for (t, pol) in p.facts][-1:] if p.facts else []
+                chk.check('C14.R9', where, f'{describe_path(p)}: pass '
+                          'skipped only when it is empty', empty,
+                          'a pass that has mutators can be skipped without '
+                          f'a single sweep (condition {other}): the mutators '
+                          'it schedules - with their pass parameters, e.g. '
+                          'the unrestricted BinaryReduction of the later '
+                          'passes - are enabled but never run',
+                          loc=m.loc(ol), nontrivial=True)
+            chk.floor('C14.R9', 'iterations of the pass loop without a '
+                      'sweep', nskip, 1)
         # aliases of the pass lists: loop targets / subscripts of pv
         for x in walk_no_nested(f):
             bad = None
